@@ -74,6 +74,7 @@ func runC18(c *Ctx, r *Report) {
 	importFoundation(c, r, "C18", "ansi")
 	importFoundation(c, r, "C18", "queue")
 	importFoundation(c, r, "C18", "response-record")
+	importFoundation(c, r, "C18", "transport-pipe")
 	r.Rule("C18/deadline", "the callback loop runs under a deadline built once from the operation's timeout (if nothing completes, the operation ends with a timeout error)", 1)
 	importObligationsIf(r, func(sub *Report) { checkDeadlineSources(c, sub) }, "C05/deadline-source", "C18/deadline", func(k string) bool { return strings.Contains(k, "allbacks") })
 	r.Rule("C18/no-private-read", "SendWithCallbacks consumes device output only inside the callback loop: everything the device sends after the input is matched against the triggers", 1)
